@@ -654,6 +654,123 @@ Section Cells.
           apply IH; [cbn in Hn; lia|exact H1|exact H2].
   Qed.
 
+  (* ---- keywords whose arguments are read up to the next non-numeric token
+          (FILL = n (...), TRCL = (...)): reading them is local as long as the
+          token that follows does not start like a number ---- *)
+  Definition hd_not_num (rest : list string) : Prop :=
+    match rest with [] => True | t :: _ => is_numstart t = false end.
+
+  (* FILL = n followed by numeric parameters *)
+  Lemma fill_local t first params fp x :
+    String.prefix "imp" t = false -> contains_sub "fill" t = true ->
+    contains_char ":" first = false -> fl P first = Some x ->
+    forallb is_numstart params = true ->
+    fill_params Sc P false (contains_char "*" t) params = Ok fp ->
+    forall rest, hd_not_num rest -> forall k,
+      exists k', kw_step Sc P t ((first :: params) ++ rest) k = Ok (k', List.length (first :: params)).
+  Proof.
+    intros H1 H2 Hc Hfl Hp Hfp rest Hr k. unfold kw_step. rewrite H1, H2.
+    unfold parse_fill. cbn [app]. rewrite Hc, Hfl. cbn [of_opt bind tl].
+    rewrite (take_numeric_app params rest Hp Hr), Hfp. cbn [bind]. eexists. reflexivity.
+  Qed.
+
+  (* TRCL = numeric parameters *)
+  Lemma trcl_local t params fp :
+    String.prefix "imp" t = false -> contains_sub "fill" t = false -> contains_sub "lat" t = false ->
+    contains_sub "trcl" t = true -> forallb is_numstart params = true ->
+    fill_params Sc P true (contains_char "*" t) params = Ok fp ->
+    forall rest, hd_not_num rest -> forall k,
+      exists k', kw_step Sc P t (params ++ rest) k = Ok (k', List.length params).
+  Proof.
+    intros H1 H2 H3 H4 Hp Hfp rest Hr k. unfold kw_step. rewrite H1, H2, H3, H4.
+    unfold parse_trcl. rewrite (take_numeric_app params rest Hp Hr), Hfp. cbn [bind].
+    eexists. reflexivity.
+  Qed.
+
+  (* [loc_imps toks es]: as [opt_imps], with every keyword read locally: either
+     it takes its arguments whatever follows ([li_any]: inert words, U, RHO,
+     MAT, LAT), or it reads numbers up to the next token that does not start
+     like one ([li_num]: FILL, TRCL) *)
+  Inductive loc_imps : list string -> list (imp_entry (T:=T)) -> Prop :=
+  | li_nil : loc_imps [] []
+  | li_imp t v x rest es :
+      String.prefix "imp" t = true -> tf P v = Some x -> loc_imps rest es ->
+      loc_imps (t :: v :: rest) ((imp_particles t, x) :: es)
+  | li_any t args rest es :
+      String.prefix "imp" t = false ->
+      (forall rest' k, exists k', kw_step Sc P t (args ++ rest') k = Ok (k', List.length args)) ->
+      loc_imps rest es -> loc_imps (t :: args ++ rest) es
+  | li_num t args rest es :
+      String.prefix "imp" t = false ->
+      (forall rest', hd_not_num rest' -> forall k,
+          exists k', kw_step Sc P t (args ++ rest') k = Ok (k', List.length args)) ->
+      hd_not_num rest -> loc_imps rest es -> loc_imps (t :: args ++ rest) es.
+
+  Lemma skipn_app_len {A} (a b : list A) : skipn (List.length a) (a ++ b) = b.
+  Proof. induction a as [|x r IH]; [reflexivity|exact IH]. Qed.
+
+  Lemma loc_imps_opt toks es : loc_imps toks es -> opt_imps toks es.
+  Proof.
+    induction 1 as [|t v x rest es Hp Hf _ IH|t args rest es Hp Hk _ IH|t args rest es Hp Hk Hr _ IH].
+    - apply oi_nil.
+    - apply oi_imp; assumption.
+    - apply (oi_other t (args ++ rest) (List.length args)); [split; [exact Hp|apply Hk]|].
+      rewrite skipn_app_len. exact IH.
+    - apply (oi_other t (args ++ rest) (List.length args)); [split; [exact Hp|apply Hk; exact Hr]|].
+      rewrite skipn_app_len. exact IH.
+  Qed.
+
+  Lemma hd_not_num_app a b : hd_not_num b -> (a = [] \/ hd_not_num a) -> hd_not_num (a ++ b).
+  Proof. destruct a as [|x r]; intros Hb [E|Ha]; try discriminate; cbn; auto. Qed.
+
+  (* the tokens of two cards one after the other, the second starting with a
+     keyword (not with a number) *)
+  Lemma loc_imps_app t1 es1 t2 es2 :
+    loc_imps t1 es1 -> loc_imps t2 es2 -> hd_not_num t2 -> loc_imps (t1 ++ t2) (es1 ++ es2).
+  Proof.
+    intros H1 H2 Hh. induction H1 as [|t v x rest es Hp Hf _ IH|t args rest es Hp Hk _ IH|t args rest es Hp Hk Hr _ IH].
+    - exact H2.
+    - cbn [app]. apply li_imp; assumption.
+    - cbn [app]. rewrite <- app_assoc. apply li_any; assumption.
+    - cbn [app]. rewrite <- app_assoc. apply li_num; try assumption.
+      destruct rest as [|r0 rest']; [exact Hh|exact Hr].
+  Qed.
+
+  Lemma loc_imps_concat tss : forall ess,
+    Forall2 loc_imps tss ess -> Forall hd_not_num (tl tss) ->
+    loc_imps (List.concat tss) (List.concat ess).
+  Proof.
+    induction tss as [|t r IH]; intros ess H Hh; inversion H as [|? es ? ess' H1 H2]; subst; [apply li_nil|].
+    cbn [List.concat]. apply loc_imps_app; [exact H1| |].
+    - apply IH; [exact H2|]. cbn [tl] in Hh. destruct r as [|r0 r']; [constructor|].
+      inversion Hh; subst. cbn [tl]. assumption.
+    - cbn [tl] in Hh. clear - Hh. induction r as [|r0 r' IHr]; [exact I|].
+      inversion Hh as [|? ? Hr0 Hr']; subst. cbn [List.concat].
+      destruct r0 as [|x0 r0']; [cbn [app]; apply IHr; exact Hr'|exact Hr0].
+  Qed.
+
+  (* the syntactic class of scan_imps is local *)
+  Lemma scan_imps_local : forall n toks (xs : list (imp_entry (T:=T))),
+    (List.length toks <= n)%nat -> scan_imps toks = Some xs -> loc_imps toks xs.
+  Proof.
+    induction n as [|n IH]; intros toks xs Hn H.
+    - destruct toks; [|cbn in Hn; lia]. cbn in H. injection H as <-. apply li_nil.
+    - destruct toks as [|t r]; [cbn in H; injection H as <-; apply li_nil|].
+      cbn [scan_imps] in H. destruct (String.prefix "imp" t) eqn:Ep.
+      + destruct r as [|v r']; [discriminate|]. destruct (tf P v) as [x|] eqn:Ef; [|discriminate].
+        destruct (scan_imps r') as [xs'|] eqn:Es; [|discriminate]. cbn in H. injection H as <-.
+        apply li_imp; [exact Ep|exact Ef|]. apply IH; [cbn in Hn; lia|exact Es].
+      + destruct (inert_b t) eqn:Ei.
+        * apply (li_any t [] r xs Ep).
+          -- intros rest' k. cbn [app List.length].
+             exact (proj2 (consumes_inert t rest' (inert_b_inert t Ei)) k).
+          -- apply IH; [cbn in Hn; lia|exact H].
+        * destruct r as [|v r']; [discriminate|]. destruct (one_arg_ok t v) eqn:Eo; [|discriminate].
+          apply (li_any t [v] r' xs Ep).
+          -- intros rest' k. cbn [app List.length]. exact (proj2 (one_arg_consumes t v rest' Eo) k).
+          -- apply IH; [cbn in Hn; lia|exact H].
+  Qed.
+
   Lemma scan_imps_concat tss : forall ess,
     Forall2 (fun toks es => scan_imps toks = Some es) tss ess ->
     scan_imps (List.concat tss) = Some (List.concat ess).
